@@ -92,7 +92,7 @@ def case(name, lineup, n, E):
                 break
         return bad, info
 
-    return Case(name, body, replay, time_budget=400, split=3 if n >= 4 else 0)
+    return Case(name, body, replay, time_budget=400, witness_paths=1, split=3 if n >= 4 else 0)
 
 
 def _model(theta, N, seed):  # noqa: N803
@@ -157,7 +157,7 @@ def cases(tier, seed):
     if tier == "thorough":
         cs += [
             case("halton-gp", [("halton", 2), ("gp", 1)], 4, 1),
-            case("uniform-bestbatch", [("uniform", 2), ("bestbatch", 1)], 4, 1),
+            case("uniform-bestbatch", [("uniform", 2), ("bestbatch", 1)], 3, 1),
             case("halton-halton", [("halton", 1), ("halton", 2)], 5, 1),
             case("cors-pso", [("uniform", 2), ("cors", 1), ("pso", 1)], 5, 1),
         ]
